@@ -6,6 +6,9 @@ CONSTANTS
   MaxCode = 1
   MaxAT = 2
   MaxDev = 0
+  MaxSteps = 99
+  Seeded = FALSE
+  Vary = {"post", "refresh"}
   Narrow = FALSE
 INVARIANT NoViolation
 VIEW View
